@@ -73,7 +73,7 @@ func main() {
 		var wg sync.WaitGroup
 		sem := make(chan struct{}, 8)
 		// a CA that takes seconds to answer (well inside the request timeout): the same post-conditions. Beside the rest.
-		for i, d := range []time.Duration{4200 * time.Millisecond, 6500 * time.Millisecond, 3700 * time.Millisecond} {
+		for i, d := range []time.Duration{4200 * time.Millisecond, 6500 * time.Millisecond, 3700 * time.Millisecond, 3900 * time.Millisecond} {
 			c := r.Case("slow-ca", i)
 			if c == nil {
 				continue
@@ -111,6 +111,9 @@ func main() {
 func history(r *ev.Run, c *ev.Case, hi int, slowCA ...time.Duration) {
 	rng := c.Rand
 	slowLeft := len(slowCA) // the CA takes its time over the first successful run of a slow-CA history
+	// lapse: every other slow history has a validity of a second or two, and the next run starts only after the
+	// certificates of a successful run have run out (the agent still holds them: their lifetime there is longer)
+	lapse, lapsesLeft := len(slowCA) > 0 && hi%2 == 0, 2
 	kd, err := gsrig.NewKeyDir()
 	if err != nil {
 		r.Inconclusive(err.Error())
@@ -121,6 +124,9 @@ func history(r *ev.Run, c *ev.Case, hi int, slowCA ...time.Duration) {
 	user := pool[rng.Intn(len(pool))]
 	kd.Write("alice.pub", gsrig.AuthorizedLine(user.Pub, ""))
 	validity := []uint64{1, 59, 3600, 43200, 30 * 86400, 90 * 86400, 365 * 86400, 3650 * 86400}[rng.Intn(8)]
+	if lapse {
+		validity = uint64(1 + hi/2%2)
+	}
 	// every handler configuration: a third of the histories set the key_label option
 	label := []string{"", "", "", "", "corp-sso", "regular", "paranoids.regular", "x y"}[rng.Intn(8)]
 	gc, _, err := gsrig.GensignConfig(gsrig.Conf{PubKeyDir: kd.Path, Identifiers: map[string]string{"default": "d"}, ValiditySec: validity, KeyLabel: label})
@@ -141,7 +147,12 @@ func history(r *ev.Run, c *ev.Case, hi int, slowCA ...time.Duration) {
 		}
 		ak := agent.AddedKey{PrivateKey: key.Priv, Comment: nearMiss[rng.Intn(len(nearMiss))]}
 		if rng.Intn(2) == 0 {
-			ak.Certificate = gen.MakeCert(gen.CertSpec{Key: key, KeyID: "foreign-" + gen.Ident(rng, 4), ValidAfter: 1, ValidBefore: ssh.CertTimeInfinity})
+			kid := "foreign-" + gen.Ident(rng, 4)
+			if rng.Intn(2) == 0 {
+				// issued by another RA of the same kind (or by this one, for somebody else): a key ID of the RA's own format
+				kid = gen.YSSHCAKeyID(gen.KeyIDSpec{Touch: 1, TransID: gen.Ident(rng, 10), Prins: []string{[]string{"bob", "alice"}[rng.Intn(2)]}})
+			}
+			ak.Certificate = gen.MakeCert(gen.CertSpec{Key: key, KeyID: kid, ValidAfter: 1, ValidBefore: ssh.CertTimeInfinity})
 		}
 		ag.Keyring.Add(ak)
 	}
@@ -155,11 +166,17 @@ func history(r *ev.Run, c *ev.Case, hi int, slowCA ...time.Duration) {
 	}
 	defer rig.Close()
 	nruns := 1 + rng.Intn(8)
+	if lapse {
+		nruns, slowLeft = 4+rng.Intn(3), 0
+	}
 	var trace []runRec
 	prevGen := map[string]bool{} // certificate blobs of the latest successful generation
 	sigParts := []string{fmt.Sprint(validity)}
 	for run := 0; run < nruns; run++ {
 		outcome := []string{"ok", "ok", "ok", "ca-error", "ca-panic", "agent-failure", "agent-close", "unconfigured-ca-algorithm"}[rng.Intn(8)]
+		if lapse && run < 3 {
+			outcome = "ok"
+		}
 		signer := &gsrig.Signer{Agent: ag, NCerts: 1 + rng.Intn(4), NonCert: rng.Intn(8) == 0}
 		for k := rng.Intn(6); k > 0; k-- {
 			signer.Comments = append(signer.Comments, []string{"", "touch", "c-" + gen.Ident(rng, 3)}[rng.Intn(3)])
@@ -369,6 +386,11 @@ func history(r *ev.Run, c *ev.Case, hi int, slowCA ...time.Duration) {
 		prevGen = newGen
 		sigParts = append(sigParts, fmt.Sprintf("ok%d", signer.NCerts))
 		r.Count("successful runs satisfying every post-condition", 1)
+		if lapse && lapsesLeft > 0 && run+1 < nruns {
+			lapsesLeft--
+			time.Sleep(time.Duration(validity)*time.Second + 1300*time.Millisecond)
+			r.Count("runs started after the previous generation's certificates had run out", 1)
+		}
 	}
 	r.Nontrivial(strings.Join(sigParts, ","))
 	if hi < 2 {
